@@ -1532,6 +1532,23 @@ func genC13(g *G) {
 		c.dfs(8, "normal", 8, []string{L0, P0, "build", u}, eqAlpha, 3)
 	}
 
+	// maxError > 0 on the OPTIMIZED path (L0 has 64 edges, the target index ti0 120): one query object and one target
+	// object reused for several calls.  State that survives a call shows only here (the set of already tested edges
+	// of a ShapeIndex-target search, the target's own maxError bookkeeping: seeded changes C08_2, C08_5); every answer
+	// is still a function of geometry and options (no brute-force visiting order is involved: single-shape index).
+	meAlpha := []string{
+		c13CallOp("fes", "ti0", 0), c13CallOp("dist", "ti0", 0), c13CallOp("fe", "ti0", 0),
+		c13CallOp("less", "ti0", 40), c13CallOp("fes", "te0", 0), "eqreset",
+	}
+	for _, u := range []string{
+		c13NewEQ(math.MaxInt32, "inf", "v1", 1, 0),
+		c13NewEQ(5, "inf", "v1", 1, 0),
+		c13NewEQ(1, "inf", "v1", 1, 0),
+		c13NewEQ(math.MaxInt32, "v20", "v2", 1, 0),
+	} {
+		c.dfs(8, "normal", 8, []string{L0, "build", u, ti0}, meAlpha, 3)
+	}
+
 	// target objects: all sequences of calls with / additions to / re-creations of ONE target object
 	c.filter = c13TgtSafe
 	for _, u := range []string{def, c13NewEQ(math.MaxInt32, "v2", "v0", 1, 0), c13NewEQ(1, "inf", "v0", 0, 0)} {
